@@ -95,19 +95,41 @@ def check(run):
     el = ck.methods.get('_elapsed')
     run.anchor(el is not None, r, 'SimulatedClock._elapsed')
     rets = [n for n in q.walk(el.node, False) if isinstance(n, ast.Return)]
-    good = len(rets) == 1 and isinstance(strip_cast(rets[0].value), ast.IfExp)
-    if good:
-        e = strip_cast(rets[0].value)
-        c = q.canon_atom(e.test)
-        good = c is not None and c[0] == 'truthy' and c[1] == 'self._play'
-        if good:
-            run_b, stop_b = (e.body, e.orelse) if c[3] else (e.orelse, e.body)
-            good = isinstance(stop_b, ast.Constant) and stop_b.value == 0
-            s = q.unparse(run_b).replace(' ', '')
-            good = good and s in ('(time()-self._base)*self._speed', 'self._speed*(time()-self._base)')
-    else:
-        # if/else statement form
-        pass
+    # collect (condition on _play, returned expression) alternatives: conditional expression or if-statement form
+    alts = []
+    for rt in rets:
+        v = strip_cast(rt.value)
+        at = guard_atoms(rt)
+        if isinstance(v, ast.IfExp):
+            c = q.canon_atom(v.test)
+            if c is not None and c[0] == 'truthy' and c[1] == 'self._play' and not at:
+                alts.append((True, v.body if c[3] else v.orelse))
+                alts.append((False, v.orelse if c[3] else v.body))
+            else:
+                alts.append((None, v))
+        elif at == [('truthy', 'self._play', '')]:
+            alts.append((True, v))
+        elif at == [('falsy', 'self._play', '')]:
+            alts.append((False, v))
+        else:
+            alts.append((None, v))
+    good = sorted(str(a[0]) for a in alts) == ['False', 'True']
+    for playing, v in alts:
+        if playing is True:
+            sx = q.resolved_text(el.node, v) if isinstance(v, ast.Name) else q.unparse(v)
+            # resolve explanatory locals inside the product
+            if isinstance(v, ast.BinOp):
+                def side_text(side):
+                    side = strip_cast(side)
+                    if isinstance(side, ast.Name):
+                        t_ = q.resolved_text(el.node, side)
+                        return '(' + t_ + ')' if t_ != side.id else t_
+                    return '(' + q.unparse(side) + ')' if isinstance(side, ast.BinOp) else q.unparse(side)
+                sx = '%s*%s' % (side_text(v.left), side_text(v.right)) if isinstance(v.op, ast.Mult) else q.unparse(v)
+            sx = sx.replace(' ', '')
+            good = good and sx in ('(time()-self._base)*self._speed', 'self._speed*(time()-self._base)')
+        elif playing is False:
+            good = good and isinstance(v, ast.Constant) and v.value == 0
     run.check(good, r, el.short, '_elapsed = (now - _base) * _speed if _play else 0', 'elapsed part computed differently: %s' % [q.unparse(x.value) for x in rets], el.node)
     tg = ck.methods.get('time')
     rets = [n for n in q.walk(tg.node, False) if isinstance(n, ast.Return)]
